@@ -132,7 +132,16 @@ func c11Rows(db *world.DB) map[string]bool {
 
 // c11Scenario plants rows, sends the requests of one scenario, waits for quiescence and judges. Returns false when
 // the client died.
+var (
+	c11ScenarioMu  sync.Mutex
+	c11ScenarioSeq int
+)
+
 func c11Scenario(env *c11Env, rnd *vc.Rand, name, sc string, lateOpened bool) bool {
+	c11ScenarioMu.Lock()
+	c11ScenarioSeq++
+	scenarioNo := 1000 + c11ScenarioSeq
+	c11ScenarioMu.Unlock()
 	r := env.r
 	cfg := env.cfg
 	for _, db := range env.dbs {
@@ -154,7 +163,10 @@ func c11Scenario(env *c11Env, rnd *vc.Rand, name, sc string, lateOpened bool) bo
 		var rows [][]interface{}
 		for x := 0; x < nx; x++ {
 			for b := 0; b < nb; b++ {
-				k := c11Key{res, fmt.Sprintf("10.0.0.%d:8091:%d", 1+x%2, 5000+x), int64(9000 + b)}
+				// identifiers are never reused across scenarios: a retry still pending from an earlier scenario must
+				// not be taken for the deletion of an uncommitted row of this one (branch ids are shared across xids
+				// and xids across branches within the scenario)
+				k := c11Key{res, fmt.Sprintf("10.0.0.%d:8091:%d", 1+x%2, scenarioNo*100+x), int64(scenarioNo*100 + 50 + b)}
 				all = append(all, k)
 				rows = append(rows, []interface{}{k.Branch, k.Xid, "serializerKey=json&compressorTypeKey=None", []byte("{}"), int64(0), now, now})
 			}
